@@ -250,8 +250,10 @@ func genOp(r *emit.Rng, gauge bool) op {
 	switch r.Intn(10) {
 	case 0, 1:
 		return op{kind: 0}
-	case 2, 3:
+	case 2:
 		return op{kind: add, v: grid[r.Intn(len(grid))]}
+	case 3: // fractional amounts that often add up to a whole number
+		return op{kind: add, v: []float64{0.5, 0.5, 1.5, 0.25, 0.75}[r.Intn(5)]}
 	case 4:
 		return op{kind: add, v: float64(1 + r.Intn(1000))}
 	case 5:
@@ -311,6 +313,10 @@ func runC01(c *cli.Ctx) error {
 				} else {
 					progs[0][len(progs[0])-1] = op{kind: 2}
 					progs[1][0] = op{kind: 1, v: grid[r.Intn(len(grid))]}
+					if r.Chance(1, 2) && len(progs[1]) > 1 { // two fractions that add up to a whole number, raced by a reader
+						progs[1][0] = op{kind: 1, v: 0.5}
+						progs[1][1] = op{kind: 1, v: []float64{0.5, 1.5}[r.Intn(2)]}
+					}
 				}
 			}
 			capBig(progs)
